@@ -99,6 +99,14 @@ def run_case(seed):
     pf = gen.gen_plotfile(rng, ndims=3, payload=rng.choice(['ints', 'random']), max_blocks=2, nfields=(1, 4),
                           nlevels=rng.choice([1, 2, 2, 3]), geo_stream='exact', bf=rng.choice([2, 4, 4]),
                           mesh=rng.choice(['blocks', 'chunky']))
+    ra = random.Random(seed * 977 + 4)
+    kwname = None
+    if ra.random() < 0.2 and len(pf.fields) >= 2:
+        # a field called like a keyword of the command-line tools ('all', mandoline's 'grid_level'): for the reader a name
+        kwname = ra.choice(['all', 'all', 'grid_level'])
+        if kwname not in pf.fields:
+            pf.fields[ra.randrange(len(pf.fields))] = kwname
+    count(f"a field named like a tool keyword={kwname}")
     keys = c01.reader_keys(pf.fields)
     path = core.scratch_dir(f"c19_{seed}")
     gen.write_plotfile(pf, path)
@@ -119,6 +127,8 @@ def run_case(seed):
         for k in range(10):
             kind, P, lv, b, cell = pick_point(rng, pf, L)
             fkind, fsel, comps = gen_fsel(rng, keys)
+            if kwname and k < 3:
+                fkind, fsel, comps = 'the keyword-like name', kwname, None
             if comps is None:
                 comps = [keys.index(fsel) if isinstance(fsel, str) else fsel]
                 single = True
